@@ -30,6 +30,7 @@ DEFINITE = [
     ('possible bit shift underflow/overflow', 'arith'),
     ('assertion failed', 'assert'),
     ('requires not satisfied', 'assert'),
+    ('unable to prove post-condition of closure', 'closure-ensures'),
     ('invariant not satisfied at end of loop body', 'loop-invariant'),
     ('invariant not satisfied before loop', 'loop-invariant'),
     ('loop invariant not satisfied', 'loop-invariant'),
